@@ -94,7 +94,7 @@ def inlinePayloadId (s : Scheme) (pid : Bytes) : Option PayloadId :=
   | .rs2m => none    -- "not supported"
 
 /-- `alc::parse_payload_id(pkt, oti)`: the layout is chosen by the OBJECT's scheme, the byte range by the packet's
-    codepoint.  Outer `Rx`: the `u32 >> m` of alcrs2m.rs panics for `m ≥ 32`. -/
+    codepoint.  (The `u32 >> m` of alcrs2m.rs is guarded by `m >= 32 => Err`; the outer `Rx` never is `.error`.) -/
 def parsePayloadId (o : Oti) (p : Pkt) : Rx (Option PayloadId) :=
   match o.scheme with
   | .rs2m =>
@@ -103,7 +103,7 @@ def parsePayloadId (o : Oti) (p : Pkt) : Rx (Option PayloadId) :=
       let m := match o.ss with
         | some (.rs m _) => m
         | _ => 8
-      if 32 ≤ m then .error (.panic "alcrs2m: shift overflow") else
+      if 32 ≤ m then .ok none else      -- "Invalid finite field parameter m" (repaired by agent wire, ac68faf)
       .ok (some ⟨v / 2 ^ m, v % 2 ^ m, none⟩)
     else .ok none
   | s => .ok (inlinePayloadId s p.pid)
@@ -325,8 +325,7 @@ def dwLoop (P : Params) : Nat → St → BW → Bytes → Nat → Bool → Rx (S
 def decodeWritePkt (P : Params) (st : St) (w : BW) (pkt : Bytes) : Rx (St × BW × Bool) :=
   match w.dz with
   | none =>
-    -- init_decoder: RingBuffer::new(2 * len), ring.write(pkt): `write_size()` of a 0-sized ring underflows
-    if pkt.length = 0 then .error (.panic "ringbuffer.rs write_size: subtract with overflow") else
+    -- init_decoder: RingBuffer::new(2 * len), ring.write(pkt) (a 0-sized ring has write_size() = 0: saturating)
     -- the constructor of the flate2 decoder may already read from the ring (GzDecoder::new parses the header):
     -- it is the first call of the history, with an empty output buffer
     let ctor : DzCall := { avail := pkt, fin := false, buflen := 0 }
